@@ -249,6 +249,7 @@ impl ReceiverInner {
     {}
 
 //@@ fn file=fe2o3-amqp/src/link/receiver.rs impl=`~impl<L>ReceiverInner<L>where` name=recv
+//@@ attr #[verifier::loop_isolation(false)]
 //@@ shape stmt-1=loop {
 //@@ generics
 //@@ nowhere
